@@ -79,7 +79,11 @@ class ParticleSwarmOptimizer(BasePopulationOptimizer):
 
             if self.conv.not_in_constraint(pos_new):
                 return pos_new
+            # fall back to a feasible neighbour of the rejected position; it is
+            # the point that gets evaluated, so the particle must know it
             pos_new = self.p_current.move_climb(pos_new)
+            self.p_current.pos_new = pos_new
+            return pos_new
 
     @BasePopulationOptimizer.track_new_score
     def evaluate(self, score_new):
